@@ -24,6 +24,7 @@ type question struct {
 	flags         questionFlags
 	finishMsgSend chan struct{}        // closed after attempting to send the Finish message
 	called        [][]capnp.PipelineOp // paths to called clients
+	paramRefs     map[exportID]uint32  // export references added by the call's params
 }
 
 // questionFlags is a bitmask of which events have occurred in a question's
@@ -145,7 +146,7 @@ func (q *question) PipelineSend(ctx context.Context, transform []capnp.PipelineO
 	q.c.mu.Lock()
 	q.c.unlockSender() // Can't be holding either lock while calling PlaceArgs.
 	q.c.mu.Unlock()
-	params, err := q.c.newPipelineCallMessage(msg, q.id, transform, q2.id, s)
+	params, err := q.c.newPipelineCallMessage(msg, q.id, transform, q2, s)
 	if err != nil {
 		q.c.mu.Lock()
 		q.c.questions[q2.id] = nil
@@ -194,12 +195,12 @@ func (q *question) PipelineSend(ctx context.Context, transform []capnp.PipelineO
 // newPipelineCallMessage builds a Call message targeted to a promised answer..
 //
 // The caller MUST NOT be holding onto c.mu or the sender lock.
-func (c *Conn) newPipelineCallMessage(msg rpccp.Message, tgt questionID, transform []capnp.PipelineOp, qid questionID, s capnp.Send) (releaseList, error) {
+func (c *Conn) newPipelineCallMessage(msg rpccp.Message, tgt questionID, transform []capnp.PipelineOp, q *question, s capnp.Send) (releaseList, error) {
 	call, err := msg.NewCall()
 	if err != nil {
 		return nil, errorf("build call message: %v", err)
 	}
-	call.SetQuestionId(uint32(qid))
+	call.SetQuestionId(uint32(q.id))
 	call.SetInterfaceId(s.Method.InterfaceID)
 	call.SetMethodId(s.Method.MethodID)
 
@@ -245,8 +246,7 @@ func (c *Conn) newPipelineCallMessage(msg rpccp.Message, tgt questionID, transfo
 	}
 	clients, states := extractCapTable(m)
 	c.mu.Lock()
-	// TODO(soon): save param refs
-	_, err = c.fillPayloadCapTable(payload, clients, states)
+	q.paramRefs, err = c.fillPayloadCapTable(payload, clients, states)
 	c.mu.Unlock()
 	if err != nil {
 		releaseList(clients).release()
